@@ -77,5 +77,44 @@ theorem informationGainCore_some_of_increasing {ref est : List Rat} {bins : Nat}
     obtain ⟨x, rfl⟩ := Option.isSome_iff_exists.1 hsome
     exact ⟨x, tie, h⟩
 
+/-- a non-decreasing list that is not strictly increasing holds two ADJACENT equal entries -/
+theorem adjacent_dup_of_not_increasing : ∀ (l : List Rat), l.Pairwise (· ≤ ·) → ¬ l.Pairwise (· < ·) →
+    ∃ pre a post, l = pre ++ a :: a :: post
+  | [], _, h => absurd List.Pairwise.nil h
+  | a :: t, hle, hnot => by
+      rw [List.pairwise_cons] at hle hnot
+      by_cases ht : t.Pairwise (· < ·)
+      · -- some later entry is not above `a`; then already the next one equals `a`
+        have : ¬ ∀ b ∈ t, a < b := fun h => hnot ⟨h, ht⟩
+        cases t with
+        | nil => exact absurd (fun b hb => by cases hb) this
+        | cons b0 t' =>
+          have hab0 : a ≤ b0 := hle.1 b0 (by simp)
+          have hb0 : b0 = a := by
+            by_contra hne
+            apply this
+            intro b hb
+            have h1 : a < b0 := lt_of_le_of_ne hab0 (fun h => hne h.symm)
+            rcases List.mem_cons.1 hb with rfl | hb'
+            · exact h1
+            · exact lt_of_lt_of_le h1 ((List.pairwise_cons.1 hle.2).1 b hb')
+          exact ⟨[], a, t', by rw [hb0]; rfl⟩
+      · obtain ⟨pre, x, post, h⟩ := adjacent_dup_of_not_increasing t hle.2 ht
+        exact ⟨a :: pre, x, post, by rw [h]; rfl⟩
+
+/-- **necessary condition for nan**: on validated input the score can be nan only if two consecutive ESTIMATED beats
+    coincide -/
+theorem informationGain_none_needs_dup {ref est : List Rat} {bins : Nat} {tie : Bool} (hb : 1 ≤ bins)
+    (hv : validate ref est = .ok ()) (h : informationGain realOps ref est bins = .ok (none, tie)) :
+    ∃ pre a post, est = pre ++ a :: a :: post := by
+  have hle : est.Pairwise (· ≤ ·) := ((validateEvents_ok_iff est).1 ((validate_ok_split ref est).1 hv).2).2
+  apply adjacent_dup_of_not_increasing est hle
+  intro hinc
+  obtain ⟨x, tie', hx⟩ := informationGainCore_some_of_increasing (ref := ref) (bins := bins) hb hinc
+  unfold informationGain at h
+  rw [validate_bind_ok] at h
+  rw [hx] at h
+  simp at h
+
 end Beat
 end Mir
